@@ -1,5 +1,5 @@
 """C02 — decoder results do not depend on how input and output are chunked (structural clauses D1–D6)."""
-import t_dst, r_account, r_preamble, r_resume, r_iso
+import t_dst, r_account, r_preamble, r_resume, r_iso, r_inv
 import p_c10
 
 MANIFEST = {
@@ -38,4 +38,5 @@ def run(rep, facts, tier):
         for sink in ('utf8', 'utf16'):
             p_c10.helpers(rep, f, c, sink)
         r_iso.run(rep, f, c, 'R-ISO', '::decode_to_utf8_raw', '::decode_to_utf16_raw', 8)
+        r_inv.run(rep, f, c, 'R-INV')
     return ('other', MANIFEST['text'], [])
